@@ -58,7 +58,7 @@ fn set_step(i: u32) {
 }
 
 fn leak_check() {
-    let leak = tok::with(|l| l.recs.iter().position(|r| r.st == tok::St::Live));
+    let leak = tok::with(|l| l.recs.iter().position(|r| r.st == tok::St::Live && !r.nodrop));
     if let Some(id) = leak {
         let (origin, owner) = tok::with(|l| (l.recs[id].origin, l.recs[id].owner));
         tok::raise(V7_LEAK, format!("at quiescence id {} ({:?}, last owner {}) is still alive: leaked", id, origin, tok::owner_name(owner)));
@@ -69,10 +69,13 @@ fn op_code(op: Op) -> u64 {
     (op.k as u64) | (op.a as u64 & 0xffff) << 8 | (op.b as u64 & 0xffff) << 24 | (op.f as u64 & 0xffff) << 40
 }
 
-fn run_vec<K: Kind<Tok> + Kind<Wide>>(plan: &Plan, st: &mut Stats, fl: &mut Flags, counts: &mut (u32, u32), viol_op: &mut Option<OpK>) {
+fn run_vec<K: Kind<Tok> + Kind<Wide> + Kind<tok::Plain>>(plan: &Plan, st: &mut Stats, fl: &mut Flags, counts: &mut (u32, u32), viol_op: &mut Option<OpK>) {
     if plan.elem == 1 {
         st.runs_wide += 1;
         run_vec_x::<K, Wide>(plan, st, fl, counts, viol_op)
+    } else if plan.elem == 2 {
+        st.runs_plain += 1;
+        run_vec_x::<K, tok::Plain>(plan, st, fl, counts, viol_op)
     } else {
         run_vec_x::<K, Tok>(plan, st, fl, counts, viol_op)
     }
